@@ -164,3 +164,17 @@ Definition v3_arbitrate_ok (x : sx) : sx :=
   let d := asB (nthx 4 x) in
   sxN (if Bool.eqb d (arb_spec (dec_layout (nthx 0 x)) (mkLtx (asNs (nthx 1 x)) (asNs (nthx 2 x))) (asN (nthx 3 x)))
        then 1 else 60).
+
+(** spec-level oracle for downloads that fail or end early (C10 on the legacy path).
+    input [outcome of the fault-free restore; outcome under the fault; 1 iff a file exists at the
+    output path after a FAILED restore; tag]  (outcomes as in v3_plan_ok)
+    output 1 = error with nothing at the output path, or success with the snapshot and the state of
+    the fault-free restore (a transparent retry); 70 = success with another state; 71 = a failed
+    restore left a file at the output path *)
+Definition v3_fault_ok (x : sx) : sx :=
+  let base := nthx 0 x in
+  let obs := nthx 1 x in
+  let left := asN (nthx 2 x) in
+  sxN (if negb (asN (nthx 0 obs) =? 0) then (if left =? 1 then 71 else 1)
+       else if (asN (nthx 1 obs) =? asN (nthx 1 base)) && (asN (nthx 2 obs) =? asN (nthx 2 base))
+               && Z.eqb (asZ (nthx 4 obs)) (asZ (nthx 4 base)) then 1 else 70).
